@@ -106,3 +106,17 @@ Proof.
   unfold spec_decode_png in Hd. destruct (spec_parse_png out) as [chunks|]; [|discriminate]. exists chunks, pic'. split; [reflexivity|exact Hd].
 Qed.
 Print Assumptions C02_optimized_file_wellformed.
+
+(* "consistent acTL/fcTL/fdAT numbering": the chunk sequence written for an animation is accepted by the APNG specification's
+   reader (one sequence counter from 0 over fcTL and fdAT, every fdAT after the fcTL of its frame and after the image data), and
+   it reads back exactly the frames of the PngData *)
+From OxiVerif Require Import Spec.Apng Proofs.ApngProofs Proofs.ChunkFlow Proofs.ApngFile.
+Theorem C02_animation_numbering : forall p pre m post,
+  aux_chunks p = pre ++ m :: post ->
+  Forall (fun c => cname_eqb (c_name c) name_fdAT = false /\ cname_eqb (c_name c) name_IDAT = false) pre ->
+  cname_eqb (c_name m) name_IDAT = true -> Forall no_frame_chunk post ->
+  seqs_ok (List.filter is_fctl pre) 0 -> Forall frame_in_range (frames p) ->
+  lenZ (List.filter is_fctl pre) + 2 * lenZ (frames p) < 2 ^ 32 ->
+  spec_apng_frames (output_chunks p) = Some (map default_of (List.filter is_fctl pre) ++ map sframe_of (frames p)).
+Proof. exact written_animation. Qed.
+Print Assumptions C02_animation_numbering.
